@@ -45,17 +45,29 @@ def error_vectors(f):
 
 
 def dropped_on_a_path(f, l, defblock):
+    # a plain move into another local hands the obligation on (it is not a look at the errors)
+    L = {l}
+    alias_stmts = set()
+    changed = True
+    while changed:
+        changed = False
+        for b, st in f.all_stmts():
+            if st[KIND] == "a" and not st[4][1] and st[5][0] == "use" and st[5][1][0] in ("mv", "cp") and not st[5][1][1][1] and st[5][1][1][0] in L:
+                alias_stmts.add(id(st))
+                if st[4][0] not in L:
+                    L.add(st[4][0])
+                    changed = True
     use = set()
     for b, blk in enumerate(f.bb):
         if blk["c"]:
             continue
         for st in blk["s"]:
-            if st[KIND] == "a" and _mentions(st[5], l):
+            if st[KIND] == "a" and id(st) not in alias_stmts and any(_mentions(st[5], x) for x in L):
                 use.add(b)
         t = blk["t"]
-        if t[KIND] == "call" and _mentions(t[5], l):
+        if t[KIND] == "call" and any(_mentions(t[5], x) for x in L):
             use.add(b)
-        if t[KIND] == "switch" and _mentions(t[4], l):
+        if t[KIND] == "switch" and any(_mentions(t[4], x) for x in L):
             use.add(b)
     seen = set()
     stack = list(f.succs(defblock))
@@ -76,9 +88,12 @@ def run(ck, facts, R, crate="mimium_lang", scope=("::compiler::typing",), floor=
     for f in facts.crate(crate).fns:
         if f.kind == "promoted" or "::test" in f.path or not any(s in f.path for s in scope):
             continue
-        for l, name, b, t in error_vectors(f):
+        vecs = error_vectors(f)
+        for i, (l, name, b, t) in enumerate(vecs):
             n += 1
-            key = "drop|%s|%s" % (f.short, name)
+            # keyed by function and by the call that produced the vector (not by the local's name: a rename is not a change)
+            prod = (callee(t) or "?").split("::")[-1]
+            key = "drop|%s|%s%s" % (f.short, prod, "" if sum(1 for v in vecs if (callee(v[3]) or "?").split("::")[-1] == prod) == 1 else "#%d" % i)
             if dropped_on_a_path(f, l, b):
                 ck.bad(R, key, "%s collects the errors of its sub-problems in `%s` (%s) and has a path to a normal return on which that vector is neither returned nor tested: the errors found for the elements are discarded and the caller is told the types unify" % (f.short, name, f.where(t)), f.where(t))
             else:
